@@ -43,7 +43,7 @@ func (t *TargetHasher) SetTargetChangeHash(target *model.Target) error {
 				if resolvedDependency.OutputHash == "" {
 					return fmt.Errorf("dependency %s of %s (via %s) has no output hash", resolvedDependency.Label, target.Label, dependency.GetLabel())
 				}
-				dependencyHashes = append(dependencyHashes, resolvedDependency.OutputHash)
+				dependencyHashes = append(dependencyHashes, dependencyHashEntry(resolvedDependency))
 			}
 			continue
 		}
@@ -53,7 +53,7 @@ func (t *TargetHasher) SetTargetChangeHash(target *model.Target) error {
 			return fmt.Errorf("dependency %s of %s has no output hash", targetDependency.Label, target.Label)
 		}
 
-		dependencyHashes[index] = targetDependency.OutputHash
+		dependencyHashes[index] = dependencyHashEntry(targetDependency)
 	}
 
 	changeHash, err := GetTargetChangeHash(*target, dependencyHashes)
@@ -62,4 +62,12 @@ func (t *TargetHasher) SetTargetChangeHash(target *model.Target) error {
 	}
 	target.ChangeHash = changeHash
 	return nil
+}
+
+// dependencyHashEntry is what a dependency contributes to the change hash of its dependants: its output
+// hash together with its label. Output paths are relative to the package of the target that produces them,
+// so without the label two dependencies that declare an output of the same name could trade their contents
+// without the dependant noticing (the sorted list of output hashes would be the same).
+func dependencyHashEntry(dependency *model.Target) string {
+	return dependency.Label.String() + "@" + dependency.OutputHash
 }
